@@ -796,6 +796,43 @@ theorem get_WF {a r : Poly} :
     · cases h
     · cases h; exact ofList_WF _ _ _
 
+/-! ## user-facing corollaries -/
+
+/-- `a[idx] = [v₀,…]` (as many values as indices, all indices in range), the user-facing frame theorem: the dimension and
+    the ring are unchanged, every position not denoted by an index keeps its coefficient, and the position denoted by
+    idx[t] holds vals[t] reduced into the ring whenever no later index denotes the same position (always, for distinct indices) -/
+theorem setIdx_frame {a : Poly} {idx vals : List Int} (hl : idx.length = vals.length)
+    (hin : ∀ i ∈ idx, -(a.dim:Int) ≤ i ∧ i < a.dim) :
+    ∃ r, a.setIdx idx (.list vals) = .ok r ∧ r.size = a.size ∧ r.dim = a.dim ∧
+      (∀ m, (∀ i ∈ idx, Spec.Poly.pos a.dim i ≠ m) → r.e m = a.e m) ∧
+      (∀ t (h1 : t < idx.length) (h2 : t < vals.length),
+        (∀ t' (h' : t' < idx.length), t < t' → Spec.Poly.pos a.dim idx[t'] ≠ Spec.Poly.pos a.dim idx[t]) →
+        r.e (Spec.Poly.pos a.dim idx[t]) = red a.size vals[t]) := by
+  rw [setIdx_list_eq a hl]
+  have hin' : ∀ p ∈ idx.zip vals, -(a.dim:Int) ≤ p.1 ∧ p.1 < a.dim := fun p hp => hin p.1 (List.of_mem_zip hp).1
+  obtain ⟨r, hr, hs, hd, hfr, hsel⟩ := setMany_frame idx vals a hin'
+  refine ⟨r, hr, hs, hd, ?_, ?_⟩
+  · intro m hm
+    exact hfr m (fun p hp => hm p.1 (List.of_mem_zip hp).1)
+  · intro t h1 h2 hlast
+    have hz : t < (idx.zip vals).length := by simp only [List.length_zip]; omega
+    have := hsel t hz (fun t' ht' htt' => by
+      have h' : t' < idx.length := by simp only [List.length_zip] at ht'; omega
+      simpa using hlast t' h' htt')
+    simpa using this
+
+/-- over Z nothing can be packed except the empty vector -/
+theorem pack_Z {a : Poly} (hk : a.size = 0) (be : Bool) :
+    (a.ival = [] → a.pack be = .ok []) ∧ (a.ival ≠ [] → ∃ m, a.pack be = .error m) := by
+  have h := split_Z hk (k' := 8) (by decide) false
+  constructor
+  · intro he
+    simp only [pack, h.1 he, bind, Except.bind, pure, Except.pure]
+    cases be <;> rfl
+  · intro he
+    obtain ⟨m, hm⟩ := h.2 he
+    exact ⟨m, by simp [pack, hm, bind, Except.bind]⟩
+
 /-! ## equality test, invariant over mutation histories -/
 
 /-- `is_zero` -/
